@@ -98,7 +98,17 @@ func (x *Exec) ghostAtVals(st *State, fi int, anchor string, vals map[string]Val
 }
 
 func (x *Exec) ghostAtStore(st *State, fi int, l *Loc) {
-	if l.Root == nil || fi >= len(st.frames) {
+	if fi >= len(st.frames) {
+		return
+	}
+	if l.Root == nil && l.Arr.S != "" {
+		// store into a slice/array element: anchor "storeelem#k"
+		fr := st.frames[fi]
+		fr.callIdx["storeelem"]++
+		x.ghostAt(st, fi, fmt.Sprintf("storeelem#%d", fr.callIdx["storeelem"]), "", nil)
+		return
+	}
+	if l.Root == nil {
 		return
 	}
 	s, ok := structOf(l.Root)
